@@ -19,10 +19,30 @@ type c13Listener struct {
 	addr   string
 	port   int
 	closed int
+	// hand-off harness: connections arriving at the real endpoint (nil: the endpoint delivers nothing)
+	feed     chan net.Conn
+	closedCh chan struct{}
 }
 
-func (l *c13Listener) Accept() (net.Conn, error) { return nil, errC13 }
-func (l *c13Listener) Close() error              { l.closed++; return nil }
+func (l *c13Listener) Accept() (net.Conn, error) {
+	if l.feed == nil {
+		return nil, errC13
+	}
+	select {
+	case c := <-l.feed:
+		c13Net.accepted = append(c13Net.accepted, c)
+		return c, nil
+	case <-l.closedCh:
+		return nil, errC13
+	}
+}
+func (l *c13Listener) Close() error {
+	l.closed++
+	if l.closedCh != nil && l.closed == 1 {
+		close(l.closedCh)
+	}
+	return nil
+}
 func (l *c13Listener) Addr() net.Addr            { return c13Addr{l.addr} }
 
 type c13Addr struct{ s string }
@@ -35,6 +55,8 @@ var c13Net struct {
 	failNext   bool
 	probeFixed bool // the OS answers "available" (no fork)
 	probes     int
+	feed       chan net.Conn // when set, listeners created deliver the connections sent here
+	accepted   []net.Conn    // connections the endpoints have handed to frp
 }
 
 // stub for net.Listen: records the address; fails when told to.
@@ -46,6 +68,9 @@ func c13StubListen(network, address string) (net.Listener, error) {
 	_, ps, _ := net.SplitHostPort(address)
 	p, _ := strconv.Atoi(ps)
 	l := &c13Listener{addr: address, port: p}
+	if c13Net.feed != nil {
+		l.feed, l.closedCh = c13Net.feed, make(chan struct{})
+	}
 	c13Net.listeners = append(c13Net.listeners, l)
 	return l, nil
 }
